@@ -135,7 +135,14 @@ pub fn convert_room(s: &Snap, src: Tok) -> u128 {
     if r_src == 0 {
         return 0;
     }
-    crate::mon::div_rate(value, r_src).min(E18)
+    // saturating: at extreme rate ratios the quotient does not fit 128 bits
+    use cosmwasm_std::Uint256;
+    let q = Uint256::from(value) * Uint256::from(E18) / Uint256::from(r_src);
+    if q > Uint256::from(E18) {
+        E18
+    } else {
+        crate::mon::to128(q)
+    }
 }
 
 /// Largest amount of `denom` whose value stays at or below `cap` in both reward coins at the oracle price.
@@ -255,7 +262,13 @@ pub fn next_op(r: &mut Rng, s: &Snap, cfg: &Cfg, p: &Profile, g: &mut GenState) 
             if k == 2 {
                 Op::Unbond { user, tok, amount, owner: None }
             } else {
-                let amount = amount.min(convert_room(s, tok).max(1));
+                // envelope 4.1: the destination token's supply must stay within 1e18; at extreme rate ratios even one
+                // source unit can mint more than the room that is left
+                let room = convert_room(s, tok);
+                if room == 0 {
+                    return Op::Advance { dt: 1 };
+                }
+                let amount = amount.min(room);
                 Op::Convert { user, tok, amount, owner: None }
             }
         }
@@ -300,7 +313,8 @@ pub fn next_op(r: &mut Rng, s: &Snap, cfg: &Cfg, p: &Profile, g: &mut GenState) 
                     let amount = amount_upto(r, p, bal.max(1));
                     match r.below(4) {
                         0 => Op::Unbond { user: spender, tok, amount, owner: Some(owner) },
-                        1 => Op::Convert { user: spender, tok, amount: amount.min(convert_room(s, tok).max(1)), owner: Some(owner) },
+                        1 if convert_room(s, tok) > 0 => Op::Convert { user: spender, tok, amount: amount.min(convert_room(s, tok)), owner: Some(owner) },
+                        1 => Op::Advance { dt: 1 },
                         2 => Op::BurnFrom { tok, spender, owner, amount: amount_upto(r, p, (bal / 4).max(1)) },
                         _ => {
                             let to = r.pick(&us).clone();
